@@ -357,7 +357,12 @@ class PayloadSA(Payload):
         if len(data):
             offset = 0
             while offset < len(data):
-                more, _, length = unpack_from('>BBH', data, offset)
+                try:
+                    more, _, length = unpack_from('>BBH', data, offset)
+                except struct_error:
+                    raise InvalidSyntax('Error parsing Proposal header')
+                if length < 4:
+                    raise InvalidSyntax(f'Proposal length {length} is shorter than the proposal header')
                 start = offset + 4
                 end = offset + length
                 proposal = Proposal.parse(data[start:end])
